@@ -524,6 +524,11 @@ pub fn gen_addr(rng: &mut Rng, thorough: bool) -> Vec<String> {
             out.push(op_m(w, &q, name));
             let d = Sha256::digest(name.as_bytes()).to_vec();
             if let Some(s) = raw_encode(w, &q, &bytes_fes(&d)) {
+                // a NAME that is itself a valid address (of this or another codec / prefix) is hashed like any other name
+                if rng.chance(1, 2) {
+                    out.push(op_m(w, &q, &s));
+                    out.push(op_m(rng.pick(&VARIANTS), &q, &s));
+                }
                 out.push(op_v(w, &q, &s, ""));
                 out.push(op_c(w, &q, &s, ""));
                 out.push(op_h(w, &q, &d));
